@@ -3,7 +3,7 @@
    Model: Model/Cursor.v (statement-level model of EntriesCursor.SkipTo: gallop + binary search,
    FieldCursor.SkipTo, NewFieldCursor, FieldCursors.Sort).  Statements only. *)
 From Coq Require Import List NArith Bool Arith Permutation Sorting.Sorted.
-From BE Require Import Model.Scan Model.Cursor Proofs.CursorProof Proofs.Refine Proofs.CursorHist Proofs.CursorGenProof Proofs.SortGenProof.
+From BE Require Import Model.Scan Model.Cursor Proofs.CursorProof Proofs.Refine Proofs.CursorHist Proofs.CursorGenProof Proofs.SortGenProof Proofs.FieldCursorGenProof.
 From Coq Require Import ZArith.
 Import ListNotations.
 Local Open Scope N_scope.
@@ -83,6 +83,23 @@ Theorem C12_translated_Sort_spec : forall fs fuel, (2 * length fs <= fuel)%nat -
   StronglySorted (fun a b => fc_current a <= fc_current b) (sort_fcursors fs).
 Proof. exact Sort_translated_spec. Qed.
 
+(* FieldCursor.SkipTo TRANSLATED from index_scanner.go on every run (the loop over the member cursors; the member's own
+   SkipTo enters as the element it leaves and the entry it returns, the pointer fc.current as the index of the member
+   it points at) computes the model's field-cursor skip: the same members afterwards and the same new minimum -- which
+   C12_field_cursor_skip above shows to be the minimum of the members' current entries.  The member's SkipTo read off
+   the model is, in turn, what the translated EntriesCursor.SkipTo leaves and returns. *)
+Theorem C12_translated_FieldCursor_SkipTo_is_model : forall f id f' m cur0,
+  (Z.of_nat (length (fc_group f)) < 2^60)%Z ->
+  fcursor_skip_to f id = Some (f', m) ->
+  exists cur', G.FieldCursor_SkipTo member mskip mskip_ret (length (fc_group f)) cur0 (fc_group f) id =
+               G.Ret ((fc_group f', cur'), m) /\ fc_current f' = m.
+Proof. exact FieldCursor_SkipTo_translated_is_model. Qed.
+Theorem C12_member_skip_is_translated : forall l c id,
+  (Z.of_nat (length l) < 2^60)%Z -> (c_pos c <= length l)%nat -> skip_to l c id <> None ->
+  G.EntriesCursor_SkipTo (length l) (Z.of_nat (c_pos c)) l (Z.of_nat (length l)) (c_eid c) id =
+  G.Ret ((Z.of_nat (c_pos (snd (mskip (l, c) id))), c_eid (snd (mskip (l, c) id))), mskip_ret (l, c) id).
+Proof. exact member_skip_is_translated. Qed.
+
 (* the model's sentinel is the constant of the current source *)
 Theorem C12_sentinel_is_generated : Cursor.NULLENTRY = BE.Gen.IdsGen.NULLENTRY.
 Proof. exact nullentry_is_generated. Qed.
@@ -107,3 +124,5 @@ Print Assumptions C12_translated_SkipTo_is_model.
 Print Assumptions C12_translated_SkipTo_spec.
 Print Assumptions C12_translated_Sort_is_model.
 Print Assumptions C12_translated_Sort_spec.
+Print Assumptions C12_translated_FieldCursor_SkipTo_is_model.
+Print Assumptions C12_member_skip_is_translated.
